@@ -11,7 +11,7 @@ from .. import gen as cgen
 
 PROP = 'C03'
 TIERS = {
-    'quick': {'runs': 3600, 'chunk': 20, 'wall_cap': 80, 'min_budget': 30},
+    'quick': {'runs': 3000, 'chunk': 20, 'wall_cap': 80, 'min_budget': 30},
     'thorough': {'runs': 200000, 'chunk': 50, 'wall_cap': 850, 'min_budget': 60},
 }
 RULE = ('case = seeded circuit (biased to XOR/XNOR/MUX reconvergence) + skewed polarity-dependent dyadic delays + input waveforms with 0-3 transitions + 1-3 reuse batches + option knobs '
